@@ -170,6 +170,61 @@ def prog_task(task):
     return out
 
 
+def cdf_task(seed):
+    """CompositeCDFTransform(squash, cdf) is the Compose.tla program Comp[A_s, A_c, Inv(A_s)] with a SHARED atom: its
+    denotation is [(s, fwd), (c, fwd), (s, inv)] forward and [(s, fwd), (c, inv), (s, inv)] inverse, log-abs-dets summed
+    - the two squashing terms are evaluated at different points and do not cancel unless the cdf is the identity."""
+    warnings.filterwarnings("ignore")
+    import torch
+
+    torch.set_num_threads(1)
+    from nflows import transforms as TR
+    from nflows.transforms import nonlinearities as NL
+
+    out = {"n": 0, "fails": []}
+    g = torch.Generator().manual_seed(seed + 9)
+    x = torch.randn(4, 3, generator=g, dtype=torch.float64) * 1.5
+    squashes = {"Sigmoid": lambda: NL.Sigmoid(), "Sigmoid(T=2)": lambda: NL.Sigmoid(temperature=2.0), "CauchyCDF": lambda: NL.CauchyCDF()}
+    cdfs = {
+        "PiecewiseLinearCDF": lambda: NL.PiecewiseLinearCDF([3], num_bins=4),
+        "PiecewiseQuadraticCDF": lambda: NL.PiecewiseQuadraticCDF([3], num_bins=4),
+        "PiecewiseCubicCDF": lambda: NL.PiecewiseCubicCDF([3], num_bins=4),
+        "PiecewiseRationalQuadraticCDF": lambda: NL.PiecewiseRationalQuadraticCDF([3], num_bins=4),
+        "PointwiseAffine(0.5x+0.2)": lambda: TR.PointwiseAffineTransform(shift=0.2, scale=0.5),
+        "Identity": lambda: TR.IdentityTransform(),
+    }
+    for sn, sb in squashes.items():
+        for cn, cb in cdfs.items():
+            prog = "CompositeCDFTransform(%s, %s) = Comp[A_s,A_c,Inv(A_s)]" % (sn, cn)
+            try:
+                torch.manual_seed(seed + 17)
+                sq, cdf = sb(), cb()
+                m = NL.CompositeCDFTransform(sq, cdf).double().eval()
+            except Exception as e:
+                out["fails"].append({"kind": "cdf_program", "prog": prog, "clause": "constructor", "detail": repr(e)[:200], "seed": seed})
+                continue
+            with torch.no_grad():
+                for dname in ("forward", "inverse", "inverse", "forward"):
+                    out["n"] += 1
+                    try:
+                        y1, l1 = sq.forward(x)
+                        y2, l2 = cdf.forward(y1) if dname == "forward" else cdf.inverse(y1)
+                        y3, l3 = sq.inverse(y2)
+                        lad = l1 + l2 + l3
+                    except Exception:  # noqa - the parts themselves refuse: nothing to compare (C17's business)
+                        continue
+                    try:
+                        ry, rl = getattr(m, dname)(x.clone())
+                    except Exception as e:
+                        out["fails"].append({"kind": "cdf_program", "prog": prog, "clause": "call_raises", "dir": dname, "detail": repr(e)[:200], "seed": seed})
+                        continue
+                    if ry.shape != y3.shape or not torch.allclose(ry, y3, rtol=1e-9, atol=1e-9, equal_nan=True):
+                        out["fails"].append({"kind": "cdf_program", "prog": prog, "clause": "outputs", "dir": dname, "detail": "%s differs from squash, cdf, squash^-1 chained by hand (max diff %.3g)" % (dname, float((ry - y3).abs().max()) if ry.shape == y3.shape else -1), "seed": seed})
+                    elif rl.shape != lad.shape or not torch.allclose(rl, lad, rtol=1e-9, atol=1e-9, equal_nan=True):
+                        out["fails"].append({"kind": "cdf_program", "prog": prog, "clause": "logabsdet", "dir": dname, "detail": "%s logabsdet %s is not the sum over the three parts %s" % (dname, rl.tolist(), lad.tolist()), "seed": seed})
+    return out
+
+
 def ms_task(task):
     warnings.filterwarnings("ignore")
     import torch
@@ -303,7 +358,9 @@ def main(run, replay=None):
         return
     if replay:
         c = replay["case"]
-        if c["kind"] == "program":
+        if c["kind"] == "cdf_program":
+            out = {"fails": [f for f in cdf_task(c["seed"])["fails"] if f["prog"] == c["prog"] and f["clause"] == c["clause"]]}
+        elif c["kind"] == "program":
             deep = "rot" in c
             res = T.run_tlc("Compose", T.cfg(constants=deep_const if deep else {"NumAtoms": 3, "Depth": 2, "MaxParts": 3}), dump=True, coverage=False, workers=4)
             sts = [s for s in parse_dump(res.dump) if show(s["prog"]) == c["prog"]] or [s for s in long_flat_states() if show(s["prog"]) == c["prog"]]
@@ -378,6 +435,9 @@ def main(run, replay=None):
     from vcore import routing
 
     fails += routing.run_leg(run)
+    out = pmap(cdf_task, [run.seed, run.seed], 2)[0]
+    run.evaluations += out["n"]
+    fails += out["fails"]
     seen = set()
     for f in fails:
         key = (f["kind"], f["clause"], f.get("op"), f.get("dir"), f.get("prog"), tuple(f.get("shape", [])), f.get("split_dim"), f.get("stages"), f.get("dir"))
